@@ -139,6 +139,98 @@ def run(prog, R):
     if len(refills) == 1:
         buf_rules(prog, R, refills[0])
         fill_count_rules(prog, R, refills[0])
+        fill_guard_rule(prog, R, refills[0])
+
+
+def fill_guard_rule(prog, R, f):
+    """FILL-7 (mutation survey: `initial_size = buffer.len() + 1` passes the suite, whose sources fill the buffer in one read)"""
+    from scev import Sym, Aff, Agg, Path, recurrence
+    R.rule('FILL-7', 'when the refill loop is left through its "buffer full" condition the buffer IS full: the quantity compared with the capacity never exceeds (length of the buffer at entry + bytes read so far), solved from the recurrence of the byte counter; otherwise a source that delivers few bytes per read leaves the buffer one short of full, which the readers take for the end of the input')
+    where = site(f, f.span['lo'])
+    loops = f.cfg.natural_loops()
+    rd = [x for x, t in f.calls() if t.callee and t.callee.is_('buffer_redux::BufReader::read_into_buf')]
+    hs = [h for h, bl in loops.items() if rd and rd[0] in bl]
+    if not hs:
+        R.anchor_missing('FILL-7', 'loop around read_into_buf')
+        return
+    h = min(hs, key=lambda x: len(loops[x]))
+    ev = Sym(prog, f)
+    ent = [p for p in ev.run(0, stops={h}) if p.end == ('stop', h)]
+    if len(ent) != 1:
+        R.anchor_missing('FILL-7', 'single path from the entry to the refill loop')
+        return
+    ent = ent[0]
+    init = Path()
+    init.env['#buf'] = ent.env.get('#buf', 0)
+    paths = ev.run(h, stops={h}, init=init)
+    back = [p for p in paths if p.end == ('stop', h)]
+    E = Aff.sym(('len', ('buffer', ent.env.get('#buf', 0))))
+    S = Aff.sym(('BYTES_READ',))
+    nsym = None
+    for p in back:
+        for (x, t, a) in p.effects:
+            if t.callee and t.callee.is_('buffer_redux::BufReader::read_into_buf'):
+                nsym = Aff.sym(('f', ('call', t.callee.path, x), 'Ok', '0'))
+    carried = set()
+    for p in back:
+        carried |= set(l for l, v in p.env.items() if isinstance(l, int) and isinstance(v, Aff) and v != Aff.sym(('H', l)))
+    closed = {}
+    over = []
+    for l in carried:
+        r = recurrence(back, l)
+        e = ent.env.get(l, Aff.sym(('H', l)))
+        # the arm that reads nothing leaves the counter alone: mixed same/inc is fine
+        kinds = set()
+        for p in back:
+            v = p.env.get(l, Aff.sym(('H', l)))
+            kinds.add('same' if v == Aff.sym(('H', l)) else 'inc' if nsym is not None and v == Aff.sym(('H', l)) + nsym else 'latest' if nsym is not None and v == nsym else 'other')
+        if kinds <= {'same', 'inc', 'latest'} and isinstance(e, Aff) and e.is_const() and e.c <= 0:
+            closed[l] = S      # upper bound: at most the bytes read so far
+        elif kinds == {'same'}:
+            closed[l] = e
+        else:
+            closed[l] = None
+            over.append(f.names.get(l, '_%d' % l))
+    exits = [p for p in paths if p.end[0] == 'return' and not any(t.callee and t.callee.is_('buffer_redux::BufReader::read_into_buf') for (_, t, _) in p.effects)]
+    if not exits:
+        R.anchor_missing('FILL-7', 'exit of the refill loop through its condition')
+        return
+    n = 0
+    for p in exits:
+        n += 1
+        ok = False
+        detail = 'no comparison with the capacity on the exit path'
+        for (_, d, taken) in p.conds:
+            s1 = d.single() if isinstance(d, Aff) else None
+            if not (isinstance(s1, tuple) and s1[0] == 'cmp' and s1[1] in ('Lt', 'Le', 'Gt', 'Ge')):
+                continue
+            op, a, c = s1[1], s1[2], s1[3]
+            truth = taken is None or taken != 0
+            # relation that holds on the exit path, as  D >= m
+            dd = a - c
+            rel = {('Lt', False): (dd, 0), ('Le', False): (dd, 1), ('Gt', True): (dd, 1), ('Ge', True): (dd, 0),
+                   ('Lt', True): (-dd, 1), ('Le', True): (-dd, 0), ('Gt', False): (-dd, 0), ('Ge', False): (-dd, 1)}[(op, truth)]
+            D, m = rel
+            caps = [k for k in D.t if isinstance(k, tuple) and k[0] == 'call' and 'capacity' in str(k[1])]
+            if len(caps) != 1 or D.t[caps[0]] != -1:
+                continue
+            X = D + Aff.sym(caps[0])
+
+            def sub(sym):
+                if isinstance(sym, tuple) and sym[0] == 'H':
+                    if sym[1] in closed:
+                        return closed[sym[1]]
+                    return ent.env.get(sym[1])
+                return None
+            Xc = X.subst(sub) if all(closed.get(k[1], 0) is not None for k in X.t if isinstance(k, tuple) and k[0] == 'H') else None
+            if Xc is None:
+                detail = 'the compared quantity depends on a counter whose recurrence is not "+= bytes read": %s' % over
+                continue
+            coef_ok = all(k in (E.single(), S.single()) and 0 <= v <= 1 for k, v in Xc.t.items())
+            ok = coef_ok and Xc.c <= m
+            detail = 'exit when %r - capacity >= %d with %r <= (entry length + bytes read) + %d: buffer full on this exit: %s' % (Xc, m, Xc, Xc.c, ok)
+        R.add('FILL-7', f, 'full-exit-implies-full-buffer', ok, where, detail)
+    R.floor('FILL-7', 1)
 
 
 def fill_count_rules(prog, R, refill):
@@ -278,8 +370,10 @@ def fill_rules(prog, R, f):
             t = f.blocks[a].term
             deps = data_deps(f, t.discr, du) if t.k == 'switch' else []
             calls = set(r[1].callee.path for r in deps if r[0] == 'call' and r[1].callee)
-            ok = 'buffer_redux::BufReader::capacity' in calls and any(c.endswith('::len') for c in calls)
-            R.add('FILL-2', f, 'exit:loop-condition', ok, site(f, line), 'loop condition depends on %s' % sorted(calls))
+            # what is compared with the capacity is FILL-7's business (a guard that ignores the initial fill only
+            # costs one more read on a full buffer, which returns 0: equivalent mutant of the survey)
+            ok = 'buffer_redux::BufReader::capacity' in calls
+            R.add('FILL-2', f, 'exit:loop-condition', ok, site(f, line), 'loop condition depends on %s (that it implies a full buffer is FILL-7)' % sorted(calls))
             kinds.append('cond')
         else:
             R.add('FILL-2', f, 'exit:other@loop', False, site(f, line), 'unexpected way out of the refill loop')
